@@ -54,6 +54,22 @@ type CPKnobs struct {
 	// that died before it wrote the metadata (or of a DeleteCheckpoint that died after removing it).
 	StaleChunkSize uint64 `json:"stale_chunk_size,omitempty"`
 	StaleThreads   uint16 `json:"stale_threads,omitempty"`
+	// Hist: the source database has a history. The checkpointed version is reached through Pre
+	// earlier versions (each changing part of the keys, so that the checkpointed tree consists of
+	// nodes created in different versions), Post later versions exist when the creation starts,
+	// the Prune earliest versions were pruned before it, and while the chunks are being created
+	// the source lives on: at up to Live of the chunker's step hooks a further version is
+	// committed and finalized or the earliest version below the checkpointed one is pruned.
+	Hist *CPHist `json:"hist,omitempty"`
+}
+
+// CPHist describes the history of the checkpoint source (see CPKnobs.Hist).
+type CPHist struct {
+	Seed  uint64 `json:"seed"`
+	Pre   int    `json:"pre"`
+	Post  int    `json:"post"`
+	Prune int    `json:"prune"`
+	Live  int    `json:"live"`
 }
 
 // CPCorrupt describes a chunk corruption.
@@ -165,6 +181,16 @@ func (CheckpointEngine) Generate(r *core.Rand, tier core.Tier) *core.Scenario {
 			k.After = append(k.After, []string{"commit", "commit", "abort", "partial", "reopen"}[ar.Intn(5)])
 		}
 	}
+	if hr := core.NewRand(k.SchedSeed ^ 0x11fe50); nk > 0 && k.RootType == 1 && hr.Chance(1, 2) {
+		h := &CPHist{Seed: hr.Uint64(), Pre: hr.Range(0, int(k.Version)-1), Post: hr.Range(0, 3)}
+		if h.Pre > 0 && hr.Chance(1, 2) {
+			h.Prune = hr.Range(1, h.Pre)
+		}
+		if hr.Chance(2, 3) {
+			h.Live = hr.Range(1, 8)
+		}
+		k.Hist = h
+	}
 	sc := &core.Scenario{Engine: "checkpoint", Knobs: core.MustJSON(k)}
 	nops := r.Range(0, 12)
 	for i := 0; i < nops; i++ {
@@ -202,6 +228,9 @@ type chunkSched struct {
 	started  bool
 	switches int64
 	rounds   int64
+	// live, when set, is called at every step hook by the goroutine that holds the token (the
+	// source database lives on while the checkpoint is created).
+	live func()
 }
 
 func newChunkSched(seed uint64) *chunkSched {
@@ -224,6 +253,9 @@ func (s *chunkSched) install() {
 	verifhook.SetHandler(func(name string) {
 		switch name {
 		case "checkpoint.subtree.step":
+			if s.live != nil {
+				s.live()
+			}
 			s.yield(false)
 		case "checkpoint.chunkTask.done":
 			s.yield(true)
@@ -409,8 +441,34 @@ func (CheckpointEngine) Execute(sc *core.Scenario, st *core.Stats) (*core.Violat
 		}
 		return ndb, root, m
 	}
-	src, root, contents := build(k.Src, "src", k.Contents)
+	// buildHist is build for a source database with a history (k.Hist).
+	buildHist := func(backend, name string) (dbapi.NodeDB, node.Root, Model, *cpSource) {
+		dir := filepath.Join(base, name)
+		_ = os.MkdirAll(dir, 0o755)
+		ndb := OpenDB(backend, dir)
+		m := Model{}
+		for _, x := range k.Contents {
+			m[string(keys[x.Key%len(keys)])] = Value(x.ID, x.Len)
+		}
+		hs := buildCPSource(ctx, ndb, keys, m, k.Version, rootType, k.Hist, st)
+		st.Inc("probe.source_with_history")
+		if hs.earliest < k.Version {
+			st.Inc("probe.source_tree_has_nodes_of_earlier_versions")
+		}
+		return ndb, hs.roots[k.Version], m, hs
+	}
+	var src dbapi.NodeDB
+	var root node.Root
+	var contents Model
+	var srcHist *cpSource
+	if k.Hist != nil && len(k.Contents) > 0 && rootType == node.RootTypeState {
+		src, root, contents, srcHist = buildHist(k.Src, "src")
+	} else {
+		src, root, contents = build(k.Src, "src", k.Contents)
+	}
 	defer src.Close()
+	// liveSrc is the source whose database advances at the step hooks of the creation in progress.
+	var liveSrc *cpSource
 
 	create := func(ndb dbapi.NodeDB, name string, r node.Root, seed uint64) (checkpoint.Creator, *checkpoint.Metadata, error, *chunkSched) {
 		cr, err := checkpoint.NewFileCreator(filepath.Join(base, name), ndb)
@@ -418,9 +476,19 @@ func (CheckpointEngine) Execute(sc *core.Scenario, st *core.Stats) (*core.Violat
 			core.Harnessf("checkpoint: NewFileCreator: %v", err)
 		}
 		sched := newChunkSched(seed)
+		if ls := liveSrc; ls != nil && ls.ndb == ndb {
+			sched.live = func() { ls.liveStep(ctx) }
+		}
 		if k.Threads > 0 {
 			sched.install()
 			defer sched.uninstall()
+		} else if sched.live != nil {
+			verifhook.SetHandler(func(name string) {
+				if name == "checkpoint.subtree.step" {
+					sched.live()
+				}
+			})
+			defer verifhook.SetHandler(nil)
 		}
 		meta, err := cr.CreateCheckpoint(ctx, r, k.ChunkSize, k.Threads)
 		return cr, meta, err, sched
@@ -446,6 +514,7 @@ func (CheckpointEngine) Execute(sc *core.Scenario, st *core.Stats) (*core.Violat
 				st.Event("stale creation chunks=%d", len(sm.Chunks))
 			}
 		}
+		liveSrc = srcHist
 		creator, meta, err, sched = create(src, "cp0", root, k.SchedSeed)
 		if err != nil {
 			if root.Hash.IsEmpty() {
@@ -481,8 +550,21 @@ func (CheckpointEngine) Execute(sc *core.Scenario, st *core.Stats) (*core.Violat
 			if k.Src == "badger" {
 				ob = "pathbadger"
 			}
-			odb, oroot, _ := build(ob, "srcother", k.Contents)
+			var odb dbapi.NodeDB
+			var oroot node.Root
+			if srcHist != nil {
+				odb, oroot, _, liveSrc = buildHist(ob, "srcother")
+			} else {
+				odb, oroot, _ = build(ob, "srcother", k.Contents)
+			}
 			_, m3, err, _ := create(odb, "cpx", oroot, core.Derive(k.SchedSeed, "cross", 0))
+			if err == nil && srcHist != nil {
+				if v = liveSrc.check(ctx); v != nil {
+					odb.Close()
+					return
+				}
+			}
+			liveSrc = nil
 			odb.Close()
 			if err != nil || oroot != root {
 				v = cpViol("create-error", fmt.Sprintf("CreateCheckpoint on backend %s failed or root differs: %v", ob, err))
@@ -493,6 +575,12 @@ func (CheckpointEngine) Execute(sc *core.Scenario, st *core.Stats) (*core.Violat
 				return
 			}
 			st.Inc("probe.metadata_cross_backend_equal")
+		}
+		liveSrc = nil
+		if srcHist != nil {
+			// The source lived on while its checkpoint was created: all of its retained versions
+			// must still read back.
+			v = srcHist.check(ctx)
 		}
 	})
 	if pv != nil {
